@@ -1,0 +1,70 @@
+// Copyright © 2025 Meroxa, Inc.
+//
+// Licensed under the Apache License, Version 2.0 (the "License");
+// you may not use this file except in compliance with the License.
+// You may obtain a copy of the License at
+//
+//     http://www.apache.org/licenses/LICENSE-2.0
+//
+// Unless required by applicable law or agreed to in writing, software
+// distributed under the License is distributed on an "AS IS" BASIS,
+// WITHOUT WARRANTIES OR CONDITIONS OF ANY KIND, either express or implied.
+// See the License for the specific language governing permissions and
+// limitations under the License.
+
+//go:build verif
+
+package funnel
+
+import (
+	"context"
+
+	"github.com/conduitio/conduit-commons/opencdc"
+)
+
+// This file is compiled only with the "verif" build tag. It gives the external
+// conformance harness access to the unexported fan-out arbiter
+// (multiAckNacker); it adds no behaviour.
+
+// VerifParent is the parent ackNacker of a VerifMultiAck.
+type VerifParent struct {
+	OnAck  func(positions []opencdc.Position) error
+	OnNack func(position opencdc.Position, taskID string) error
+}
+
+func (p VerifParent) Ack(_ context.Context, b *Batch) error { return p.OnAck(b.positions) }
+func (p VerifParent) Nack(_ context.Context, b *Batch, taskID string) error {
+	return p.OnNack(b.positions[0], taskID)
+}
+
+// VerifMultiAck wraps a multiAckNacker.
+type VerifMultiAck struct{ m *multiAckNacker }
+
+func NewVerifMultiAck(parent VerifParent, branches int, positions []opencdc.Position) (*VerifMultiAck, error) {
+	m, err := newMultiAckNacker(parent, branches, positions)
+	if err != nil {
+		return nil, err
+	}
+	return &VerifMultiAck{m: m}, nil
+}
+
+// Ack is one branch acknowledging recs (a contiguous part of the original batch).
+func (v *VerifMultiAck) Ack(ctx context.Context, recs []opencdc.Record) error {
+	return v.m.Ack(ctx, NewBatch(recs))
+}
+
+// Nack is one branch rejecting recs with err.
+func (v *VerifMultiAck) Nack(ctx context.Context, recs []opencdc.Record, err error, taskID string) error {
+	b := NewBatch(recs)
+	for i := range recs {
+		b.Nack(i, err)
+	}
+	return v.m.Nack(ctx, b, taskID)
+}
+
+// Released is the number of leading positions handed to the parent so far.
+func (v *VerifMultiAck) Released() int {
+	v.m.mu.Lock()
+	defer v.m.mu.Unlock()
+	return v.m.released
+}
